@@ -712,12 +712,6 @@ fn ops(m: &Model, ctx: &mut Ctx) {
         ("abc | 0..9", setop("abc", "Union", elem("0..9")), Some(u(&ac, &d09))),
         ("a..z EXCEPT x (X.691 10.3.21: EXCEPT ignored)", setop("a..z", "Except", elem("x")), Some(az.clone())),
         ("a..c EXCEPT x", setop("a..c", "Except", elem("x")), Some(ac.clone())),
-        ("a..c | x | 0..9", setop("a..c", "Union", nested(setop("x", "Union", elem("0..9")))), Some(u(&u(&ac, &x), &d09))),
-        ("0..9 | a..z ^ c..k", setop("0..9", "Union", nested(setop("a..z", "Intersection", elem("c..k")))), Some(u(&d09, &ck))),
-        ("a..z ^ a..c|x ^ c..k", setop("a..z", "Intersection", nested(setop("a..c|x", "Intersection", elem("c..k")))), Some(i(&u(&ac, &x), &ck))),
-        ("a..z ^ c..k EXCEPT x (nested EXCEPT ignored)", setop("a..z", "Intersection", nested(setop("c..k", "Except", elem("x")))), Some(i(&az, &ck))),
-        ("0..9 | a..c EXCEPT x (nested EXCEPT ignored)", setop("0..9", "Union", nested(setop("a..c", "Except", elem("x")))), Some(u(&d09, &ac))),
-        ("0..9 | a..c EXCEPT x | c..k", setop("0..9", "Union", nested(setop("a..c", "Except", nested(setop("x", "Union", elem("c..k")))))), Some(u(&d09, &ac))),
         ("a..c | <not PER-visible> (10.3.21: not PER-visible)", setop("a..c", "Union", elem("invisible")), None),
         ("a..c ^ <not PER-visible> (10.3.21: ignored)", setop("a..c", "Intersection", elem("invisible")), Some(ac.clone())),
     ];
@@ -748,6 +742,108 @@ fn ops(m: &Model, ctx: &mut Ctx) {
             }
             Err(e) => ctx.fail_closed("C15.ops", &format!("[{}]: {}", key, e)),
         }
+    }
+
+    // (2b) chains of three and four operands with mixed operators, as the lexer's own production nests them (SRC-G): X.680
+    // clause 50 gives EXCEPT precedence over intersection and intersection over union; X.691 10.3.21 drops an EXCEPT with
+    // the elements that follow it. The denotation must be the union of the intersections.
+    {
+        let names = ["a..z", "a..c", "x", "c..k", "0..9", "a..c|x"];
+        let sets: Vec<Set> = vec![az.clone(), ac.clone(), x.clone(), ck.clone(), d09.clone(), u(&ac, &x)];
+        let words = [("|", "Union"), ("^", "Intersection"), ("EXCEPT", "Except")];
+        let params: Vec<String> = fse.sig.inputs.iter().filter_map(|a| match a { syn::FnArg::Typed(t) => Some(tok(&t.pat)), _ => None }).collect();
+        let mut reported: std::collections::BTreeSet<String> = Default::default();
+        let mut n = 0usize;
+        let mut run_chain = |ctx: &mut Ctx, idx: &[usize], ws: &[(&str, &str)]| {
+            let shape = ws.iter().map(|w| w.1).collect::<Vec<_>>().join("-");
+            if reported.contains(&shape) {
+                return;
+            }
+            let mut groups: Vec<Set> = vec![sets[idx[0]].clone()];
+            for (w, k) in ws.iter().zip(idx.iter().skip(1)) {
+                match w.1 {
+                    "Except" => {}
+                    "Intersection" => { let g = groups.last_mut().unwrap(); *g = i(g, &sets[*k]); }
+                    _ => groups.push(sets[*k].clone()),
+                }
+            }
+            let want: Set = groups.iter().fold(Set::new(), |a, b| u(&a, b));
+            if groups.iter().any(|g| g.is_empty()) {
+                return; // an empty intersection: an error is acceptable
+            }
+            n += 1;
+            let text = format!("FROM ({})", idx.iter().enumerate().map(|(j, k)| if j == 0 { names[*k].to_string() } else { format!("{} {}", ws[j - 1].0, names[*k]) }).collect::<Vec<_>>().join(" "));
+            let vals: Vec<Val> = idx.iter().map(|k| Val::Str(names[*k].into())).collect();
+            let tree = match crate::rules::c04::parser_chain(m, &ev, &consts, &ws.iter().map(|w| w.0).collect::<Vec<_>>(), &vals) {
+                Ok(t) => t,
+                Err(e) => {
+                    ctx.fail_closed("C15.prec", &format!("[tree of {}]: {}", text, e));
+                    reported.insert(shape);
+                    return;
+                }
+            };
+            let pa = Val::Ctor("PermittedAlphabet".into(), vec![Val::Ctor("SetOperation".into(), vec![tree], BTreeMap::new())], BTreeMap::new());
+            let mut env = Env::new();
+            env.insert(params.first().cloned().unwrap_or("element".into()), Val::some(pa));
+            env.insert(params.get(1).cloned().unwrap_or("string_type".into()), Val::ctor("IA5String"));
+            let got = ev.eval_fn_body(&fse.block, &mut env).and_then(|r| match r {
+                Val::Ctor(ok, p, _) if ok == "Ok" => match p.first() {
+                    Some(Val::Ctor(s, q, _)) if s == "Some" => denotation(q.first().unwrap_or(&Val::Unit)),
+                    Some(Val::Ctor(s, _, _)) if s == "None" => Ok(Set::new()),
+                    o => Err(format!("result {:?}", o.map(|x| x.show()))),
+                },
+                o => Err(format!("result {}", o.show())),
+            });
+            match got {
+                Ok(g) if g == want => {}
+                Ok(g) => {
+                    let missing: String = want.difference(&g).collect();
+                    let extra: String = g.difference(&want).collect();
+                    ctx.violate("C15.prec", &format!("{}:{}", shape, if !missing.is_empty() { "characters-missing" } else { "characters-added" }), &fse.file, fse.line,
+                        &format!("{} denotes {:?}; by X.680 precedence (EXCEPT over intersection over union) it is {:?}{}{}", text, g.iter().collect::<String>(), want.iter().collect::<String>(),
+                            if missing.is_empty() { String::new() } else { format!(": permitted characters {:?} are missing from the annotation", missing) }, if extra.is_empty() { String::new() } else { format!(": {:?} are not permitted", extra) }));
+                    reported.insert(shape);
+                }
+                Err(e) => {
+                    ctx.fail_closed("C15.prec", &format!("[{}]: {}", text, e));
+                    reported.insert(shape);
+                }
+            }
+        };
+        for w1 in &words {
+            for w2 in &words {
+                ctx.oblige("C15.prec", &format!("{}-{}", w1.1, w2.1), true);
+                for a in 0..names.len() {
+                    for b in 0..names.len() {
+                        for c in 0..names.len() {
+                            run_chain(ctx, &[a, b, c], &[*w1, *w2]);
+                        }
+                    }
+                }
+            }
+        }
+        let small = [1usize, 3, 4];
+        for w1 in &words {
+            for w2 in &words {
+                for w3 in &words {
+                    if w1.1 == w2.1 && w2.1 == w3.1 {
+                        continue;
+                    }
+                    ctx.oblige("C15.prec", &format!("{}-{}-{}", w1.1, w2.1, w3.1), true);
+                    for a in small {
+                        for b in small {
+                            for c in small {
+                                for d in small {
+                                    run_chain(ctx, &[a, b, c, d], &[*w1, *w2, *w3]);
+                                }
+                            }
+                        }
+                    }
+                }
+            }
+        }
+        ctx.oblige_n("C15.prec/chains", n);
+        ctx.floor("C15.prec/chains", n, 500);
     }
 
     // (3) serially applied constraints intersect: every fn that folds try_new over a list of constraints
